@@ -842,12 +842,104 @@ func instrumentFieldAccesses(pkg, path string, src []byte) ([]byte, int) {
 		edits = append(edits, edit{from, to, fmt.Sprintf("verifrt.%s(%s, &%s.%s, %s)", fn, first, x, s.Sel.Name, site)})
 		return false
 	})
+	// local variables that a function literal assigns to although they are declared outside
+	// it (a result variable filled in by a goroutine, an `err` shared by several closures):
+	// every use of such a variable in the enclosing function goes through verifrt.RV / WV
+	for _, d := range file.Decls {
+		fd, ok := d.(*ast.FuncDecl)
+		if !ok || fd.Body == nil {
+			continue
+		}
+		shared := map[*ast.Object]bool{}
+		inside := func(o *ast.Object, n ast.Node) bool { return o.Pos() >= n.Pos() && o.Pos() < n.End() }
+		ast.Inspect(fd.Body, func(n ast.Node) bool {
+			lit, ok := n.(*ast.FuncLit)
+			if !ok {
+				return true
+			}
+			mark := func(e ast.Expr) {
+				id, ok := stripParens(e).(*ast.Ident)
+				if !ok || id.Obj == nil || id.Obj.Kind != ast.Var || id.Name == "_" {
+					return
+				}
+				if !inside(id.Obj, lit) && inside(id.Obj, fd) {
+					shared[id.Obj] = true
+				}
+			}
+			ast.Inspect(lit.Body, func(m ast.Node) bool {
+				switch v := m.(type) {
+				case *ast.AssignStmt:
+					if v.Tok != token.DEFINE {
+						for _, l := range v.Lhs {
+							mark(l)
+						}
+					}
+				case *ast.IncDecStmt:
+					mark(v.X)
+				}
+				return true
+			})
+			return true
+		})
+		if len(shared) == 0 {
+			continue
+		}
+		lhs := map[*ast.Ident]bool{}
+		ast.Inspect(fd, func(n ast.Node) bool {
+			switch v := n.(type) {
+			case *ast.AssignStmt:
+				if v.Tok != token.DEFINE {
+					for _, l := range v.Lhs {
+						if id, ok := stripParens(l).(*ast.Ident); ok {
+							lhs[id] = true
+						}
+					}
+				}
+			case *ast.IncDecStmt:
+				if id, ok := stripParens(v.X).(*ast.Ident); ok {
+					lhs[id] = true
+				}
+			}
+			return true
+		})
+		ast.Inspect(fd, func(n ast.Node) bool {
+			switch v := n.(type) {
+			case *ast.SelectorExpr:
+				// x.f with x shared: only x is a use of the variable
+				ast.Inspect(v.X, func(m ast.Node) bool { return true })
+			case *ast.KeyValueExpr:
+				// a bare identifier key of a struct literal is a field name, not a variable
+				if _, isIdent := v.Key.(*ast.Ident); isIdent {
+					ast.Inspect(v.Value, func(m ast.Node) bool { return true })
+				}
+			}
+			id, ok := n.(*ast.Ident)
+			if !ok || id.Obj == nil || !shared[id.Obj] || id.Pos() == id.Obj.Pos() {
+				return true
+			}
+			fn := "RV"
+			if lhs[id] {
+				fn = "WV"
+			}
+			from, to := fset.Position(id.Pos()).Offset, fset.Position(id.End()).Offset
+			site := strconv.Quote(fmt.Sprintf("%s:%d %s", rel, fset.Position(id.Pos()).Line, id.Name))
+			edits = append(edits, edit{from, to, fmt.Sprintf("(*verifrt.%s(&%s, %s))", fn, id.Name, site)})
+			return true
+		})
+	}
 	sort.Slice(edits, func(i, j int) bool { return edits[i].from > edits[j].from })
 	out := append([]byte{}, src...)
+	last := len(out) + 1
+	applied := 0
 	for _, e := range edits {
+		if e.to > last {
+			continue // overlaps an edit further right (a shared variable inside an instrumented selector)
+		}
 		out = append(out[:e.from], append([]byte(e.text), out[e.to:]...)...)
+		last = e.from
+		applied++
 	}
-	return out, len(edits)
+	return out, applied
 }
 
 // ---------------------------------------------------------------- channel operations
